@@ -16,7 +16,7 @@ from ..world import EPS, World, default_inputs_backward, gen_sched, run_call
 ID = "C08"
 LEVEL = "exploration"
 BUDGET = {
-    "quick": {"runs": 1200, "wall": 300, "chunk": 20},
+    "quick": {"runs": 2400, "wall": 300, "chunk": 20},
     "thorough": {"runs": 30000, "wall": 3000, "chunk": 100},
 }
 EXACT = ["Mean", "Sum", "Constant", "TrimmedMean", "Krum", "Random"]
@@ -27,7 +27,7 @@ RULE = (
     "backward() configuration, executed three times on fresh instantiations: (a) inputs listed in one order "
     "under schedule s1, (b) another listing order under schedule s2 (another set-iteration order, hence another "
     "column order of the Jacobian handed to the aggregator), (c) with the ghost leaves inserted into `inputs` "
-    "under s3 (zero columns). Aggregators: Mean, Sum, Constant, TrimmedMean, Krum (score-gap margin), UPGrad, "
+    "under s3 (zero columns; in 15% of the runs additionally one WIDE ghost tensor of 2e4..2e5 elements). Aggregators: Mean, Sum, Constant, TrimmedMean, Krum (score-gap margin), UPGrad, "
     "DualProj (with preference vectors), PCGrad and Random with the S2 seam replaying the same draws, and -- "
     "only when the model Jacobian has full row rank with sigma_min/sigma_max > 1e-3 -- IMTL-G, Aligned-MTL, "
     "ConFIG, CAGrad, MGDA (argmin-gap margin). The deposits on the real leaves must agree across (a),(b),(c) "
@@ -42,6 +42,11 @@ ASSUMPTIONS = [
     "pinv/eigh/conic/Frank-Wolfe based aggregators only on Jacobians with unambiguous numerical rank; Krum/MGDA near-ties assert nothing",
     "GradDrop is excluded: its draw is per column, so the layout legitimately re-labels the randomness",
 ]
+
+
+class _NoKeep(list):
+    def append(self, x):  # the recorded Jacobians are not needed here (and can be large)
+        pass
 
 
 class ReplayChooser:
@@ -128,6 +133,10 @@ def generate(rng, tier, index):
         sv = np.linalg.svd(J, compute_uv=False) if J.size else np.zeros(0)
         if m <= J.shape[1] and sv.size and sv[-1] / max(sv[0], 1e-300) > 1e-3:
             fams += COND + COND
+    want_wide = rng.random() < 0.2
+    if want_wide and dtype == "float64" and rng.random() < 0.8:
+        # column-count dependence is a risk of the Gramian/SVD/pinv based aggregators: bias towards them
+        fams = [f for f in fams if f in CONT + COND] or fams
     kind = rng.choice(fams)
     if kind == "TrimmedMean" and m < 3:
         kind = "Mean"
@@ -151,17 +160,35 @@ def generate(rng, tier, index):
     listing_c = list(inputs)
     for gh in ghosts:
         listing_c.insert(rng.randint(0, len(listing_c)), gh)
+    # a WIDE ghost: a large parameter tensor that influences nothing (frozen embedding table, unused head):
+    # created outside the program, only in execution (c); 1e5-ish zero columns
+    wide = None
+    if want_wide:
+        wide = {"numel": rng.choice([20000, 60000, 200000]), "pos": rng.randint(0, len(listing_c)), "rank": 5000 + rng.randrange(500)}
     return {
+        "wide_ghost": wide,
         "spec": spec, "tensors": outs, "agg": agg, "chunk": rng.choice([None, None, 1, 2]),
         "inputs_a": inputs, "inputs_b": listing_b, "inputs_c": listing_c, "ghosts": ghosts, "draws": draws,
         "scheds": [gen_sched(rng, spec), gen_sched(rng, spec), gen_sched(rng, spec)],
     }
 
 
-def _run(scn, inputs, sched, stats):
+def _run(scn, inputs, sched, stats, wide=None):
+    import torch
+
     world = World(scn["spec"], sched)
+    inputs = list(inputs)
+    if wide is not None:
+        g = torch.zeros(int(wide["numel"]), dtype=world.dtype, requires_grad=True)
+        world.t["__wide_ghost__"] = g
+        world.names.append("__wide_ghost__")
+        world._name_of[id(g)] = "__wide_ghost__"
+        seams.set_ranks([(g, int(wide["rank"]) * (16 if sched.get("mode") == "aligned" else 1))])
+        inputs.insert(min(int(wide["pos"]), len(inputs)), "__wide_ghost__")
+        stats["reach.wide_ghost_columns"] = stats.get("reach.wide_ghost_columns", 0) + 1
     call = {"api": "backward", "tensors": scn["tensors"], "inputs": inputs, "agg": scn["agg"], "chunk": scn.get("chunk"), "retain": False}
     rec = RecordingAggregator(make_agg(scn["agg"], world.dtype))
+    rec.seen = _NoKeep()
     seam = seams.RngSeam(ReplayChooser(scn["draws"]))
     with seam.armed():
         out, _ = run_call(world, call, agg=rec)
@@ -191,7 +218,7 @@ def execute(scn):
         stats["reach.ambiguous_skipped"] = 1
     runs = []
     for tag, inputs, sched in (("a", scn["inputs_a"], scn["scheds"][0]), ("b", scn["inputs_b"], scn["scheds"][1]), ("c", scn["inputs_c"], scn["scheds"][2])):
-        world, out, rec, eff = _run(scn, inputs, sched, stats)
+        world, out, rec, eff = _run(scn, inputs, sched, stats, wide=scn.get("wide_ghost") if tag == "c" else None)
         events.append([tag, out["ok"], out["exc"], eff])
         if not out["ok"]:
             viols.append({"clause": "valid_call_raised", "step": tag, "details": out, "key": {"exc": out["exc"]}})
@@ -218,7 +245,7 @@ def execute(scn):
                 if not np.all(np.isfinite(b)) or d > tol:
                     viols.append({"clause": "column_order_changes_update" if tag == "b" else "zero_columns_change_update", "step": tag, "details": {"input": n, "max_abs_diff": d, "tol": tol, "agg": kind, "order_a": effa, "order_other": eff2}, "key": {}})
         wc = runs[2][0]
-        for gh in scn["ghosts"]:
+        for gh in list(scn["ghosts"]) + (["__wide_ghost__"] if scn.get("wide_ghost") else []):
             gv = wc.grad_array(gh)
             if gv is None:
                 viols.append({"clause": "ghost_leaf_got_no_zero_grad", "step": "c", "details": {"ghost": gh}, "key": {}})
@@ -229,7 +256,7 @@ def execute(scn):
     if differs:
         stats["reach.different_effective_column_order"] = 1
     effc = runs[2][2]
-    if any(effc.index(gh) < len(effc) - len(scn["ghosts"]) for gh in scn["ghosts"]):
+    if any(effc.index(gh) < len(effc) - len(scn["ghosts"]) - (1 if scn.get("wide_ghost") else 0) for gh in scn["ghosts"]):
         stats["reach.ghost_columns_not_at_the_end"] = 1
     sets["agg_kind"] = [kind]
     sets["colperm_pair"] = [f"{effa}->{effb}"]
@@ -252,6 +279,14 @@ def _wscale(agg, m):
 
 
 def shrink(scn):
+    if scn.get("wide_ghost"):
+        s = copy.deepcopy(scn)
+        s["wide_ghost"] = None
+        yield s
+        if scn["wide_ghost"]["numel"] > 20000:
+            s = copy.deepcopy(scn)
+            s["wide_ghost"]["numel"] = scn["wide_ghost"]["numel"] // 2
+            yield s
     if scn.get("chunk") is not None:
         s = copy.deepcopy(scn)
         s["chunk"] = None
